@@ -158,6 +158,7 @@ func c24Run(c *core.Ctx, raw json.RawMessage) {
 	s := sched.New(c, c.Rng)
 	s.TickProb, s.Sticky = sc.TickProb, sc.Sticky
 	s.MaxSteps = 4000
+	s.ModelLock("queue.seqMu") // held while Write blocks on a full queue
 	s.Install()
 	timeout := time.Duration(sc.TimeoutMs) * time.Millisecond
 	seq0 := time.Now().UnixNano() // the queue numbers writes from the (fake) time of its creation
